@@ -35,7 +35,7 @@ class Job:
                  loop_contracts=False, link=(), defines=(), cbmc=(), unwind=None,
                  replace_calls=(), remove_bodies=(), timeout=600, covers=True, bound=None,
                  assumptions=(), replay=None, also=(), safety=True, overlay=None,
-                 nondet_static=False, group=None, config=(), solver=None, case=None):
+                 nondet_static=False, group=None, config=(), solver=None, case=None, gen=None):
         self.name = name
         self.prop = prop
         self.kind = kind
@@ -64,6 +64,7 @@ class Job:
         self.config = list(config)      # build configuration defines (C18)
         self.solver = solver
         self.case = case                # free-form description of the enumerated case
+        self.gen = dict(gen or {})      # generated files (name -> content) placed on the include path
 
 
 class Result:
@@ -232,7 +233,8 @@ def run_job(job, scratch, cover_pass=False):
     os.makedirs(wd, exist_ok=True)
     res.workdir = wd
     inc = ["-I" + REPO, "-I" + os.path.join(REPO, "include"), "-I" + VERIF]
-    defs = ["-DCELLO_VERIF"] + ["-D" + d for d in job.defines] + ["-D" + d for d in job.config]
+    # CELLO_NSTRACE: the Makefile defines it on this platform (no libexecinfo), so it is part of the configuration that runs
+    defs = ["-DCELLO_VERIF", "-DCELLO_NSTRACE"] + ["-D" + d for d in job.defines if d != "CELLO_NSTRACE"] + ["-D" + d for d in job.config]
     if cover_pass:
         defs.append("-DCV_COVER_PASS")
     srcs = [os.path.join(VERIF, "harness", job.harness)]
@@ -244,8 +246,19 @@ def run_job(job, scratch, cover_pass=False):
             res.error = "extraction-break: " + err
             return res
         defs.append('-DOVERLAY_SRC="%s"' % dst)
+    for fname, content in job.gen.items():
+        open(os.path.join(wd, fname), "w").write(content)
+    inc.append("-I" + wd)
     for l in job.link:
-        srcs.append(l if os.path.isabs(l) else (os.path.join(REPO, l) if l.startswith("src/") else os.path.join(VERIF, l)))
+        path = l if os.path.isabs(l) else (os.path.join(REPO, l) if l.startswith("src/") else os.path.join(VERIF, l))
+        if l.startswith("src/"):
+            unit, err = compiled_unit(path, inc[:3], ["-DCELLO_VERIF", "-DCELLO_NSTRACE"] + ["-D" + d for d in job.config], scratch)
+            if err:
+                res.error = err
+                return res
+            srcs.append(unit)
+        else:
+            srcs.append(path)
     gb = os.path.join(wd, "a.gb")
     cmd = ["goto-cc", "-std=gnu99"] + inc + defs + ["--function", job.entry] + srcs + ["-o", gb]
     rc, out, _ = run(cmd, wd, 300)
@@ -372,6 +385,26 @@ def trace_inputs(res, prop_name, timeout=300):
 
 
 _lib_lock = None
+import threading
+_cc_locks = {}
+_cc_guard = threading.Lock()
+
+
+def compiled_unit(src, inc, defs, scratch):
+    """compile one linked source file to a goto binary once per check run (cache in the scratch dir)"""
+    key = hashlib.sha1((src + " " + " ".join(defs)).encode()).hexdigest()[:16]
+    out = os.path.join(scratch, "cc_" + key + ".gb")
+    with _cc_guard:
+        lock = _cc_locks.setdefault(key, threading.Lock())
+    with lock:
+        if os.path.exists(out):
+            return out, None
+        cmd = ["goto-cc", "-std=gnu99"] + inc + defs + ["-c", src, "-o", out + ".tmp"]
+        rc, o, _ = run(cmd, scratch, 300)
+        if rc != 0:
+            return None, "goto-cc failed on %s: %s" % (src, o[-1200:])
+        os.rename(out + ".tmp", out)
+        return out, None
 
 
 def build_native_lib(scratch, config=()):
@@ -546,6 +579,10 @@ def check_property(prop, jobs, tier, level, explanation, trusted, seed=0, quiet=
             if len(samples) < 6 and mine:
                 samples.append({"job": j.name, "kind": j.kind, "obligation": mine[-1][0], "description": mine[-1][1], "status": mine[-1][2], "case": j.case})
             failed = [o for o in mine if o[2] == "FAILURE"]
+            unw = [o for o in failed if ".unwind." in o[0] or ".recursion" in o[0]]
+            if unw:
+                errors.append("%s: unwinding bound too small for %s (undecided, not a violation)" % (j.name, ", ".join(sorted(set(o[0] for o in unw)))[:300]))
+                failed = []   # beyond a failed unwinding assertion nothing is decided
             nobody = [o for o in failed if ".no-body." in o[0]]
             if nobody:
                 errors.append("%s: harness links no body for %s" % (j.name, ", ".join(sorted(set(o[0].split(".no-body.")[1] for o in nobody)))))
